@@ -12,7 +12,8 @@ from .fsmodel import VFS, PathV, fs_hook, sval
 
 ROOT = "/w/proj"
 TREE = {
-    "/w": (["proj", "other"], []),
+    "/w": (["proj", "other", "proj-legacy"], []),
+    "/w/proj-legacy": ([], ["l.py"]),
     "/w/other": ([], ["o.py"]),
     "/w/proj": ([".hid", "sub", "build", "_priv", "gen"], ["a.py", ".dot.py", "b.xyz", "c.rb", "skip.py", "d.js", "__init__.py", "noext", "SConstruct"]),
     "/w/proj/gen": ([], ["keep.py", "other.py"]),
@@ -79,9 +80,17 @@ def expected(root=ROOT):
 
 
 class Lab:
-    def __init__(self, prj: Project, cwd: str = ROOT):
+    def __init__(self, prj: Project, cwd: str = ROOT, deep: bool = False, undecodable: bool = False):
+        """deep: interpret _scan_file / _analyze_file / check_file / _read_file themselves (only hashing, lexing and
+        measuring are replaced); undecodable: every file's bytes are invalid UTF-8"""
         self.prj = prj
+        self.deep = deep
         self.vfs = VFS(TREE, cwd)
+        if undecodable:
+            self.vfs.undecodable = {f"{d}/{f}" for d, (_, files) in TREE.items() for f in files}
+        from .evalsite import Run, _hook as _effects
+        self.effects = Run()
+        eff = _effects(self.effects)
         self.analysed: list = []
         self.spec_roots: list = []
         self.excl_args: list = []
@@ -102,17 +111,22 @@ class Lab:
                     root = sval(args[0]) if args else None
                     self.spec_roots.append(root)
                     return Sym("spec", root=self.vfs.abs(root) if root is not None else None)
-                if q.endswith(":_scan_file"):
+                if q.endswith(":_scan_file") and not self.deep:
                     self.analysed.append(self.vfs.abs(sval(args[3])))
                     return Sym("entry")
-                if q.endswith(":_read_file"):
+                if q.endswith(":_read_file") and not self.deep:
                     self.analysed.append(self.vfs.abs(sval(args[0])))
                     return "code"
+                if q.endswith(":calculate_checksum"):
+                    return "sum:" + self.vfs.abs(sval(args[0]))
                 if q.endswith(":lex") and "lexer_utils" in q:
                     return []
                 if q.endswith(":scan_file"):
+                    if self.deep:
+                        m = Sym("measurement", unit_name="f", value=40, start=Sym("loc", line=1, column=1), end=Sym("loc", line=41, column=1))
+                        return [m]
                     return []
-                if q.endswith("CheckResult.report") or q.endswith("CheckResult.add"):
+                if (q.endswith("CheckResult.report") or q.endswith("CheckResult.add")) and not self.deep:
                     return None
             if isinstance(f, tuple) and f and f[0] == "external":
                 name = f[1].replace(":", ".")
@@ -136,6 +150,8 @@ class Lab:
                 return spec_matches(f[1].fields.get("root"), s)
             if isinstance(f, tuple) and f and f[0] == "method" and isinstance(f[1], Sym) and f[1].name in ("callback",):
                 return None
+            if self.deep:
+                return eff(it, kind, f, args, kwargs, node, cur)
             return NotImplemented
         self.hook = hook
 
@@ -146,6 +162,8 @@ class Lab:
         except PyRaise as e:
             if e.name not in ("Exit",):
                 raise
+        if self.deep:
+            return sorted({a for a in self.vfs.read_log})
         return sorted(self.analysed)
 
 
@@ -214,3 +232,25 @@ def why_not(f: str) -> str:
     if lexer_of(rel) not in SUPPORTED:
         return "unsupported (its language is not one of the supported ones)"
     return "not qualifying"
+
+
+def totality_scenarios(prj: Project):
+    """scan and check run to the end (no exception escapes) on the virtual tree whose files are all invalid UTF-8, reached in
+    every way, including a directory and a file outside the working directory: -> list of (description, exception or None, site)"""
+    out = []
+    cases = [("scan of the root", "codelimit.common.Scanner:scan_path", ROOT, [PathV(ROOT)]),
+             ("scan of a relative root", "codelimit.common.Scanner:scan_path", "/w", [PathV("proj")]),
+             ("check of the root directory", "codelimit.commands.check:check_command", ROOT, [[PathV(".")], True]),
+             ("check of an absolute directory outside the working directory", "codelimit.commands.check:check_command", ROOT, [[PathV("/w/other")], True]),
+             ("check of a relative directory outside the working directory", "codelimit.commands.check:check_command", ROOT + "/sub", [[PathV("../build")], True]),
+             ("check of an absolute sibling directory whose name extends the working directory's name", "codelimit.commands.check:check_command", ROOT, [[PathV("/w/proj-legacy")], True]),
+             ("check of relative files", "codelimit.commands.check:check_command", ROOT, [[PathV("a.py"), PathV("b.xyz"), PathV("c.rb"), PathV("noext"), PathV("sub/s.py")], True]),
+             ("check of an absolute file outside the working directory", "codelimit.commands.check:check_command", ROOT, [[PathV("/w/other/o.py")], True])]
+    for desc, q, cwd, args in cases:
+        lab = Lab(prj, cwd, deep=True, undecodable=True)
+        try:
+            lab.run(q, args)
+            out.append((desc, None, None, lab))
+        except PyRaise as e:
+            out.append((desc, e.name, e.node, lab))
+    return out
